@@ -63,6 +63,15 @@ def c12_a(ctx: Ctx):
         else:
             out.append(ctx.viol(R, e.fi, e.node, f"{e.prim} without exist_ok=True: a process that loses the race between the isdir() check and the creation "
                                 "fails with FileExistsError although the directory it wanted exists"))
+    # check-then-act: the directory helper must not turn 'somebody else created it meanwhile' into an error
+    mk = ctx.fn("signac._utility:_mkdir_p")
+    rs = [n for n in body_nodes(mk) if isinstance(n, ast.Raise)]
+    if rs:
+        facts = common.facts_at(ctx, mk, rs[0], "n")
+        out.append(ctx.viol(R, mk, rs[0], f"_mkdir_p raises explicitly after testing the path ({sorted(facts)}): between the isdir() test and this second test another process may have created "
+                            "the directory, and its creation is reported as FileExistsError to a process that only wanted the directory to exist"))
+    else:
+        out.append(ctx.ok(R, mk, mk.node, "_mkdir_p contains no check-then-raise: concurrent creation is left to os.makedirs(exist_ok=True)"))
     return out
 
 
@@ -105,6 +114,19 @@ def c12_b(ctx: Ctx):
     else:
         out.append(ctx.ok(R, None, None, "no signac module calls disable_multithreading(): the dependency's tmp+os.replace mode stays on",
                           construct="signac|disable_multithreading"))
+    # 2b. no signac collection class overrides the dependency's thread-support switch
+    for cq, ci in ctx.prog.classes.items():
+        if ci.module.is_dep:
+            continue
+        for attr in ("_supports_threading", "_threading_support_is_active"):
+            if attr in ci.attrs:
+                v = ctx.fold(ci.attrs[attr], None, ci.module)
+                if v is True:
+                    out.append(ctx.ok(R, None, None, f"{cq}.{attr} = True", construct=f"{cq}|{attr}"))
+                else:
+                    out.append(ctx._mk("VIOLATION", R, None, None, f"{ci.module.rel}:{ci.node.lineno}: class {ci.name} sets {attr} = {canon(ci.attrs[attr])}: this switches off the mode in which "
+                                       "synced_collections writes a temporary and os.replace()s it, so state points (write_concern=False) are truncated and rewritten in place and a concurrent init() "
+                                       "can read an empty file", construct=f"{cq}|{attr}"))
     # 3. the dependency flag
     ci = ctx.prog.classes.get("synced_collections.backends.collection_json:JSONCollection")
     if ci and "_supports_threading" in ci.attrs:
